@@ -442,6 +442,12 @@ func runAtomicWrite(c *Ctx, r *Reporter) {
 			sig[fn] = true
 		}
 	}
+	// every other function of the command that returns an error (helpers that a refactoring may introduce)
+	for _, fn := range fns {
+		if res := fn.Signature.Results(); res.Len() > 0 && isErrorType(res.At(res.Len()-1).Type()) && fn.Pkg != nil && fn.Pkg == root.Pkg && fn != root {
+			sig[fn] = true
+		}
+	}
 	ei := &evalInfo{reach: sig}
 	for _, fn := range fns {
 		m := 0
